@@ -45,6 +45,7 @@ HTML_BLOCKS = [
     (7, ['</custom>']), (6, ['<p align="x">', '*not emphasis*']), (2, ['<!-- one line -->']), (1, ['<style>p{}</style>']),
     (1, ['<textarea>', '', '</textarea>']), (6, ['<hr />']),
 ]
+MARKER_LIKE = ['> q', '# h', '- l', '+ p', '1. x', '2) y', '***', '---', '[a]: b', '===', '>']
 LABELS = ['foo', 'bar', 'Baz', 'long label', 'x1', 'ẞtraße', 'Σίσυφος', 'mixed Case Label', 'q']
 
 
@@ -135,7 +136,12 @@ def gen_inlines(c, depth=0, allow_link=True, allow_break=True, n=None, allow_htm
     for i, it in enumerate(items):
         if i:
             k = t.below(100)
-            if allow_break and k < 15:
+            if allow_break and k < 4 and not c.canonical and not c.reflow and 'cont_indent_marker' not in c.exclude:
+                # a continuation line indented four or more columns stays paragraph text whatever it looks like
+                out.append(N('soft', indent=4 + t.below(3)))
+                out.append(N('text', s=t.choice(MARKER_LIKE)))
+                out.append(N('sp'))
+            elif allow_break and k < 15:
                 out.append(N('soft', indent=0 if c.canonical else t.weighted([(4, 0), (1, 1), (1, 3), (1, 5)])))
             elif allow_break and k < 22:
                 out.append(N('hard', style=t.choice(['  ', '   ', '\\']) if not c.canonical else t.choice(['  ', '\\']),
@@ -238,7 +244,8 @@ def gen_blocks(c, depth, n, in_item=False, in_quote=False, tight=False):
         elif k < 62 and not in_item:
             b = N('icode', lines=[t.choice([x for x in CODE_LINES if x.strip()]) for _ in range(1 + t.below(3))])
         elif k < 73 and depth < 3:
-            b = N('quote', children=gen_blocks(c, depth + 1, 1 + t.below(3), False, True) or [_filler()], markers=None)
+            b = N('quote', children=gen_blocks(c, depth + 1, 1 + t.below(3), False, True) or [_filler()], markers=None,
+                  lead_blank=0 if c.canonical else t.weighted([(8, 0), (1, 1), (1, 2)]))
         elif k < 88 and depth < 3:
             b = gen_list(c, depth, in_quote, nested=in_item)
         elif k < 94:
